@@ -282,6 +282,7 @@ const c08Marker = "@@next@@"
 // fresh VM; a marker statement after each one separates the answers. Reports are reduced to their first line.
 func c08ViaLoop(stmts []string) []string {
 	s := impl.NewSession()
+	s.SetFuel(5000000)
 	lines := []string{}
 	for _, st := range stmts {
 		lines = append(lines, strings.Split(st, "\n")...)
